@@ -11,9 +11,9 @@ CONSTANTS
     DBRPs = {"db.rp", "db.rp2", "other.rp"}
     ChildLists <- MCChildListsNeg
     WrapUser = TRUE
-    TruncNext = FALSE
+    TruncNext = TRUE
     CloneSharesGB = TRUE
-    FluxEndsCollection = FALSE
+    FluxEndsCollection = TRUE
 INVARIANTS
     TypeOK
     RangeIsExact
